@@ -6,6 +6,8 @@ explicit whitespace `Text` and comments are items. It is what tree-sitter delive
 
     source_code   : (gap comment)* gap expr (gap comment)* endGap
     expr          : leaf | `[` items closeGap `]` | [`rec` recGap] `{` items closeGap `}`
+                  | `(` items closeGap `)`            (comments and exactly one expression)
+                  | expr (gap comment)* gap expr      (function application)
     list items    : (gap comment | gap expr)*
     set items     : (gap comment | gap binding)*
     binding       : name (gap comment)* gap `=` (gap comment)* gap expr (gap comment)* gap `;`
@@ -36,6 +38,10 @@ inductive Cst where
   | list (items : Items) (closeGap : Text)
   /-- [`rec` recGap] `{` items closeGap `}` -/
   | set (isRec : Bool) (recGap : Text) (items : Items) (closeGap : Text)
+  /-- `(` items closeGap `)` — `parenthesized_expression`: comments and exactly one expression -/
+  | paren (items : Items) (closeGap : Text)
+  /-- function (gap comment)* gap argument — `apply_expression` -/
+  | app (f : Cst) (cs : GC) (g : Text) (a : Cst)
 inductive Items where
   | nil
   /-- gap, comment token -/
@@ -61,6 +67,8 @@ def Cst.flatten : Cst → Text
   | .leaf _ t => t
   | .list its cg => '[' :: its.flatten ++ cg ++ [']']
   | .set r rg its cg => (if r then ['r', 'e', 'c'] ++ rg else []) ++ '{' :: its.flatten ++ cg ++ ['}']
+  | .paren its cg => '(' :: its.flatten ++ cg ++ [')']
+  | .app f cs g a => f.flatten ++ flattenGC cs ++ g ++ a.flatten
 def Items.flatten : Items → Text
   | .nil => []
   | .cmt g t rest => g ++ t ++ rest.flatten
@@ -71,6 +79,21 @@ def Items.flatten : Items → Text
 end
 
 def File.flatten (f : File) : Text := f.items.flatten ++ f.endGap
+
+/-- the text between the opening token and the first expression of an item sequence (comments
+    included): what `gap_between(node, open_paren, value_node)` returns -/
+def Items.preElem : Items → Text
+  | .nil => []
+  | .cmt g t rest => g ++ t ++ rest.preElem
+  | .elem g _ _ => g
+  | .bind .. => []
+
+/-- the text between the first expression of an item sequence and the end of the sequence -/
+def Items.postElem : Items → Text
+  | .nil => []
+  | .cmt _ _ rest => rest.postElem
+  | .elem _ _ rest => rest.flatten
+  | .bind .. => []
 
 /-! ### code tokens and comments, in document order (SPEC side: read off the tree) -/
 
@@ -87,6 +110,8 @@ def Cst.lex : Cst → List Lex
   | .leaf _ t => [.tok t]
   | .list its _ => .tok ['['] :: its.lex ++ [.tok [']']]
   | .set r _ its _ => (if r then [.tok ['r', 'e', 'c']] else []) ++ .tok ['{'] :: its.lex ++ [.tok ['}']]
+  | .paren its _ => .tok ['('] :: its.lex ++ [.tok [')']]
+  | .app f cs _ a => f.lex ++ lexGC cs ++ a.lex
 def Items.lex : Items → List Lex
   | .nil => []
   | .cmt _ t rest => .cmt t :: rest.lex
@@ -182,7 +207,7 @@ def gcOk : GC → Text → Bool
 
 /-- where an item sequence sits -/
 inductive Mode where
-  | file | list | set
+  | file | list | set | paren
 deriving DecidableEq, Repr
 
 /-- the gap in front of the first item (`none`: no item) -/
@@ -192,11 +217,19 @@ def Items.firstGap : Items → Option Text
   | .elem g _ _ => some g
   | .bind g _ _ _ _ _ _ _ _ _ => some g
 
+def Items.countElems : Items → Nat
+  | .nil => 0
+  | .cmt _ _ rest => rest.countElems
+  | .elem _ _ rest => rest.countElems + 1
+  | .bind _ _ _ _ _ _ _ _ _ rest => rest.countElems
+
 mutual
 def Cst.wf : Cst → Bool
   | .leaf k t => leafOk k t
   | .list its cg => its.wf .list cg && isGap cg
   | .set r rg its cg => (r || rg.isEmpty) && isGap rg && its.wf .set cg && isGap cg
+  | .paren its cg => its.wf .paren cg && its.countElems == 1 && isGap cg
+  | .app f cs g a => f.wf && gcOk cs g && isGap g && a.wf
 /-- `closeGap`: the whitespace after the last item (in front of the closing token / the end of the
     file) -/
 def Items.wf : Items → Mode → Text → Bool
@@ -208,12 +241,6 @@ def Items.wf : Items → Mode → Text → Bool
     m == .set && isGap g && nameOk n && gcOk c1 g1 && isGap g1 && gcOk c2 g2 && isGap g2 && v.wf &&
       gcOk c3 g3 && isGap g3 && rest.wf m cg
 end
-
-def Items.countElems : Items → Nat
-  | .nil => 0
-  | .cmt _ _ rest => rest.countElems
-  | .elem _ _ rest => rest.countElems + 1
-  | .bind _ _ _ _ _ _ _ _ _ rest => rest.countElems
 
 /-- `WF`: gaps are whitespace, comments are comment tokens of the fragment (a line comment is
     followed by its line break), names and leaves are single tokens, a file has exactly one
